@@ -52,6 +52,11 @@ def run(rec, hub, tier, seed, shard, nshards, budget):
         if not budget.ok() or _time.monotonic() > t_hist_end:
             break
         run_history(rec, hub, D, seed, shard, nshards, tier, h, length)
+    # -- 1b. sets of many long dimensions (no array is ever built from them): sizes up to ~2**62 ----------------------------------
+    for g in range(12 if tier == "quick" else 40):
+        if not budget.ok():
+            break
+        run_huge_set(rec, hub, seed, shard, nshards, tier, g)
     # -- 2. exhaustive pairs ---------------------------------------------------
     universe = "abcde" if tier == "thorough" else "abcd"
     subs = ordered_subsets(universe)
@@ -105,12 +110,41 @@ def run_pair(rec, hub, D, la, lb, ops):
                 pass
 
 
+def run_huge_set(rec, hub, seed, shard, nshards, tier, g):
+    """a product catalogue x regions x cohorts x years ...: thousands of items per dimension, total sizes far beyond 2**53"""
+    fd = hub.fd
+    rng = case_rng(seed, "c14.huge", shard, g)
+    rec.set_case(driver="c14.huge", seed=seed, shard=shard, nshards=nshards, tier=tier, idx=g)
+    k = rng.randint(3, 7)
+    target_bits = rng.uniform(30, 61.5)
+    per = 2 ** (target_bits / k)
+    sizes = [max(2, int(per * rng.uniform(0.6, 1.6)) | 1) for _ in range(k)]
+    tot = 1
+    for z in sizes:
+        tot *= z
+    while tot >= 2**62:
+        sizes[sizes.index(max(sizes))] //= 2
+        tot = 1
+        for z in sizes:
+            tot *= z
+    letters = rng.sample("abcdefghij", k)
+    dl = [fd.Dimension(letter=l, name=f"long {l}", items=list(range(1000, 1000 + z)) if i % 2 else [f"{l}{q}" for q in range(z)]) for i, (l, z) in enumerate(zip(letters, sizes))]
+    ds = fd.DimensionSet(dim_list=dl)
+    m = LDimSet([O.dkey(d) for d in dl])
+    O.check_lookups(rec, fd, ds, m)
+    sub = rng.sample(letters, rng.randint(1, k))
+    O.check_lookups(rec, fd, ds.get_subset(tuple(sub)), m.subset(sub))
+    O.check_lookups(rec, fd, ds.drop(sub[0]), LDimSet([d for d in m.dims if d[0] != sub[0]]))
+
+
 def replay(rec, hub, case):
     fd = hub.fd
     O.register(hub)
     D = mkdims(fd)
     rec.set_case(**case)
-    if case["driver"] == "c14.pairs":
+    if case["driver"] == "c14.huge":
+        run_huge_set(rec, hub, case["seed"], case["shard"], case["nshards"], case["tier"], case["idx"])
+    elif case["driver"] == "c14.pairs":
         run_pair(rec, hub, D, tuple(case["a"]), tuple(case["b"]), ["__or__", "__and__", "__sub__", "__xor__", "__add__", "union_with", "intersect_with", "difference_with"])
     else:
         run_history(rec, hub, D, case["seed"], case["shard"], case["nshards"], case["tier"], case["idx"], case["length"])
